@@ -24,6 +24,38 @@ EXEMPT_FIELDS = {
 }
 
 
+def _param_derived(init: FuncInfo, assign_stmt):
+    """The value stored by `self.f = <expr>` in __init__ depends on a constructor parameter
+    (directly or through locals).  Constant initialisations (`= None`, `= {}`) are lazily
+    filled caches / result slots, not part of the definition the object was built from."""
+    derived = {p.name for p in init.params[1:]}
+    changed = True
+    while changed:
+        changed = False
+        for n in ast.walk(init.node):
+            tgts, val = [], None
+            if isinstance(n, ast.Assign):
+                tgts, val = n.targets, n.value
+            elif isinstance(n, ast.For):
+                tgts, val = [n.target], n.iter
+            elif isinstance(n, ast.AugAssign):
+                tgts, val = [n.target], n.value
+            elif isinstance(n, ast.Expr) and isinstance(n.value, ast.Call) and isinstance(n.value.func, ast.Attribute) and isinstance(n.value.func.value, ast.Name) and n.value.func.attr in ("append", "extend", "add", "update"):
+                tgts, val = [n.value.func.value], n.value
+            if val is None:
+                continue
+            if any(isinstance(x, ast.Name) and x.id in derived for x in ast.walk(val)):
+                for t in tgts:
+                    for x in ast.walk(t):
+                        if isinstance(x, ast.Name) and x.id not in derived:
+                            derived.add(x.id)
+                            changed = True
+    val = getattr(assign_stmt, "value", None)
+    if val is None:
+        return True
+    return any(isinstance(x, ast.Name) and x.id in derived for x in ast.walk(val))
+
+
 def _attr_reads(node, name):
     """Attribute names read directly on variable `name` inside node."""
     out = set()
@@ -100,6 +132,10 @@ def _type_test_kind(eq: FuncInfo):
             l, r = ast.unparse(n.left), ast.unparse(n.comparators[0])
             if {l, r} == {f"type({s})", f"type({o})"}:
                 kinds.append(("exact", n))
+        if isinstance(n, ast.If) and isinstance(n.test, ast.Compare) and len(n.test.ops) == 1 and isinstance(n.test.ops[0], (ast.NotEq, ast.IsNot)):
+            l, r = ast.unparse(n.test.left), ast.unparse(n.test.comparators[0])
+            if {l, r} == {f"type({s})", f"type({o})"} and n.body and isinstance(n.body[-1], ast.Return) and isinstance(n.body[-1].value, ast.Constant) and n.body[-1].value.value is False:
+                kinds.append(("exact-guard", n))
         if isinstance(n, ast.Call) and isinstance(n.func, ast.Name) and n.func.id == "isinstance" and n.args and isinstance(n.args[0], ast.Name) and n.args[0].id == o:
             kinds.append(("isinstance", n))
         if isinstance(n, ast.Call) and isinstance(n.func, ast.Attribute) and n.func.attr == "__eq__" and isinstance(n.func.value, ast.Call) and getattr(n.func.value.func, "id", "") == "super":
@@ -182,7 +218,10 @@ def rule_eqstate(ctx):
         inst["__eq__"] = eq.qualname
         state = set()
         for fld, sites in c.all_fields().items():
-            state.add(fld)
+            # constructor state only: a field assigned solely outside __init__ is a lazily
+            # filled cache, which is R-PURE's concern (C08), not part of the object's identity
+            if any(fn.name == "__init__" and _param_derived(fn, st) for fn, st in sites):
+                state.add(fld)
         # property-backed fields: `_X` stored by the setter of property `X`
         norm_state = set()
         for fld in state:
@@ -202,7 +241,14 @@ def rule_eqstate(ctx):
             problems.append(("fields", f"field(s) {missing} are part of the object's state but are not read on both sides by {eq.qualname}: two objects differing only there compare equal"))
         kinds = _type_test_kind(eq)
         tk = [k for k, _ in kinds]
-        if "exact" in tk or "super" in tk:
+        if "exact-guard" in tk:
+            g = next(n for k, n in kinds if k == "exact-guard")
+            o_ = eq.params[1].name
+            early = [n for n in ast.walk(eq.node) if isinstance(n, ast.Attribute) and isinstance(n.value, ast.Name) and n.value.id == o_ and (n.lineno, n.col_offset) < (g.lineno, g.col_offset)]
+            top = g in eq.node.body
+            if early or not top:
+                problems.append(("guard", "an attribute of the other operand is read before the exact-type guard"))
+        elif "exact" in tk or "super" in tk:
             test_node = next(n for k, n in kinds if k in ("exact", "super"))
             ok, bad = _other_reads_guarded(eq, test_node)
             if not ok:
